@@ -64,6 +64,9 @@ func (H) Describe(sc any) string {
 // Generate implements core.Harness.
 func (H) Generate(r *simrt.Rand, tier string) any {
 	s := &Scenario{UK: 3 + r.Intn(2), UV: 3 + r.Intn(2)}
+	if r.Intn(6) == 0 {
+		s.UK, s.UV = 3+r.Intn(14), 3+r.Intn(14)
+	}
 	n := 1 + r.Intn(25)
 	if r.Intn(5) == 0 {
 		n = 1 + r.Intn(200)
